@@ -64,13 +64,19 @@ Qed.
 Section Phase3.
   Variable ms : list move.
   Variable free : list reg.
-  Hypothesis WF : wf ms free.
+  Variable ck : value -> Z.
+  Variable wl : value -> reg -> option Z.
+  Hypothesis WF : wf_all ms free.
+  Hypothesis Hkey : forall a b, In a ms -> In b ms ->
+    (ck (m_value a) = ck (m_value b) <-> m_src a = m_src b).
+  Hypothesis Hw : forall m, In m ms -> trivb m = false -> wl (m_value m) (m_dst m) = Some (m_w m).
 
   Notation P := (src_by_dst (loop1 ms)).
   Notation oidx := (output_index ms).
-  Notation wofn := (src_type_by_src ms).
+  Notation break_chain := (break_chain wl ms (loop1 ms)).
+  Notation xor_chain_new := (xor_chain_new ms (loop1 ms)).
   Notation doneb := (doneb ms).
-  Let ND : NoDup (map m_dst ms) := wf_dsts _ _ WF.
+  Let ND : NoDup (map m_dst ms) := wa_dsts _ _ WF.
 
   Definition par (r : reg) : option reg := option_map vreg (P r).
 
@@ -95,13 +101,13 @@ Section Phase3.
     K_child : forall d, P d <> None -> doneb (results s) d = false ->
       exists y, In y ms /\ trivb y = false /\ m_src y = d /\ doneb (results s) (m_dst y) = false }.
 
-  Lemma inv3_of_inv2 s : Inv2 ms s (map m_dst ms) -> Inv3 s.
+  Lemma inv3_of_inv2 s : Inv2 ms ck s (map m_dst ms) -> Inv3 s.
   Proof.
-    intros J. pose proof (unresolved_child ms free WF s J) as UC. destruct J as [Ji _ _ _].
+    intros J. pose proof (unresolved_child ms free ck WF Hkey s J) as UC. destruct J as [Ji _ _ _].
     constructor.
-    - apply (I_len ms s Ji).
-    - apply (I_triv ms s Ji).
-    - intros rho. destruct (I_sem ms s Ji rho) as [S1 S2]. split.
+    - apply (I_len ms ck s Ji).
+    - apply (I_triv ms ck s Ji).
+    - intros rho. destruct (I_sem ms ck s Ji rho) as [S1 S2]. split.
       + intros m Im Tm Dm. rewrite (S1 m Im Tm Dm). rewrite !view_copyf. apply copyf_idem.
       + intros r Hr _. now apply S2.
     - exact UC.
@@ -154,22 +160,22 @@ Section Phase3.
 
   (* ---- break_chain ---- *)
   Lemma break_chain_eq fuel stop e rs cur :
-    break_chain ms fuel stop e rs cur =
+    break_chain fuel stop e rs cur =
     match fuel with
     | O => OutOfFuel
     | S f =>
         if cur =? stop then Ok (e, rs) else
         do src <- key (P cur);
-        do w <- key (wofn (vid src));
+        do w <- key (wl src cur);
         do '(e1, nv) <- insert_mv e src cur w;
         do i <- key (oidx cur);
-        break_chain ms f stop e1 (lset i (Some nv) rs) (vreg src)
+        break_chain f stop e1 (lset i (Some nv) rs) (vreg src)
     end.
   Proof. destruct fuel; reflexivity. Qed.
 
   Lemma break_chain_spec : forall l x fuel e rs,
     chain par x l -> NoDup (x :: l) -> length rs = length ms -> (length l < fuel)%nat ->
-    match break_chain ms fuel (last l x) e rs x with
+    match break_chain fuel (last l x) e rs x with
     | Ok (e', rs') =>
         exists mvs, e' = e ++ mvs /\ length rs' = length rs
         /\ (forall r, In r (removelast (x :: l)) -> doneb rs' r = true)
@@ -193,9 +199,9 @@ Section Phase3.
       { intros E. apply NoDup_cons_iff in NDp as [Hx _]. apply Hx. rewrite E. apply last_in. }
       destruct (Z.eqb_spec x (last l y)) as [|_]; [contradiction|].
       destruct (par_move x y Px) as (m & Im & Tm & Dm & Sm & Pm). rewrite Pm. cbn [key bind].
-      simpl vid. rewrite (wof_of ms free WF m Im). cbn [key bind].
-      assert (Ksrc : is_float (vreg (m_value m)) = is_float x) by (rewrite <- Dm; apply (wf_kinds _ _ WF m Im)).
-      destruct (insert_mv_res e (m_value m) x (m_w m) Ksrc) as [(e1 & nv & Hins)|[Hins Hw]].
+      pose proof (Hw m Im Tm) as Hwm. rewrite Dm in Hwm. rewrite Hwm. cbn [key bind].
+      assert (Ksrc : is_float (vreg (m_value m)) = is_float x) by (rewrite <- Dm; apply (wa_kinds _ _ WF m Im)).
+      destruct (insert_mv_res e (m_value m) x (m_w m) Ksrc) as [(e1 & nv & Hins)|[Hins Hbw]].
       2:{ rewrite Hins. cbn [bind]. split; [reflexivity|]. exists m. auto. }
       rewrite Hins. cbn [bind].
       destruct (In_nth_error _ _ Im) as [i Hi].
@@ -207,7 +213,7 @@ Section Phase3.
       specialize (IH y f (e ++ [ins]) (lset i (Some nv) rs) Ch NDy).
       rewrite lset_length in IH. specialize (IH Len).
       assert (Fu' : (length l < f)%nat) by (simpl in Fu; lia). specialize (IH Fu').
-      destruct (break_chain ms f (last l y) (e ++ [ins]) (lset i (Some nv) rs) y) as [[e' rs']|e0|]; [|exact IH|exact IH].
+      destruct (break_chain f (last l y) (e ++ [ins]) (lset i (Some nv) rs) y) as [[e' rs']|e0|]; [|exact IH|exact IH].
       destruct IH as (mvs & -> & Len' & Dn1 & Dn2 & Sl & Sem).
       assert (NZ : x <> ZERO) by (rewrite <- Dm; now apply (nontriv_dst_nonzero ms free WF)).
       assert (Hxr : ~ In x (removelast (y :: l))) by (intros K; apply Hx; now apply removelast_incl).
@@ -237,7 +243,7 @@ Section Phase3.
 
   (* ---- xor_chain_new ---- *)
   Lemma xor_chain_eq fuel stop e rs inp out :
-    xor_chain_new ms fuel stop e rs inp out =
+    xor_chain_new fuel stop e rs inp out =
     match fuel with
     | O => OutOfFuel
     | S f =>
@@ -246,7 +252,7 @@ Section Phase3.
         do i <- key (oidx (vreg nw_out));
         let rs1 := lset i (Some nw_out) rs in
         do inp1 <- key (P (vreg inp));
-        xor_chain_new ms f stop e3 rs1 inp1 nw_inp
+        xor_chain_new f stop e3 rs1 inp1 nw_inp
     end.
   Proof. destruct fuel; reflexivity. Qed.
 
@@ -256,7 +262,7 @@ Section Phase3.
     vreg out = x -> P x = Some inp ->
     length rs = length ms -> (length l < fuel)%nat ->
     exists mvs rs' out',
-      xor_chain_new ms fuel stop e rs inp out = Ok (e ++ mvs, rs', out')
+      xor_chain_new fuel stop e rs inp out = Ok (e ++ mvs, rs', out')
       /\ vreg out' = last l x /\ length rs' = length rs
       /\ (forall r, In r (removelast (x :: l)) -> doneb rs' r = true)
       /\ (forall r, ~ In r (removelast (x :: l)) -> doneb rs' r = doneb rs r)
@@ -345,7 +351,7 @@ Section Phase3.
     assert (Cfree : forall z, In z C -> ~ In z free).
     { intros z Iz If. destruct (HC z Iz) as [Pz _]. destruct (P z) as [v|] eqn:E; [|congruence].
       destruct (P_inv ms free WF _ _ E) as (m & Im & _ & Dm & _).
-      destruct (wf_free _ _ WF z m If Im) as [_ N]. congruence. }
+      destruct (wa_free _ _ WF z m If Im) as [_ N]. congruence. }
     constructor.
     - assumption.
     - intros i m Hi Tm. rewrite (Htriv i m Hi Tm). now apply (K_triv s K).
@@ -359,7 +365,7 @@ Section Phase3.
           destruct (HC z' Iz') as [_ Dz]. apply S2; [now right|now apply Cfree].
         * rewrite Hd2 in Dm by assumption.
           rewrite F1; [now apply S1|assumption|].
-          intros If. destruct (wf_free _ _ WF _ m If Im) as [_ N]. congruence.
+          intros If. destruct (wa_free _ _ WF _ m If Im) as [_ N]. congruence.
       + intros r Hr Nf.
         assert (Nc : ~ In r C).
         { intros Ic. destruct (HC r Ic) as [Pr _]. rewrite (Hd1 r Ic) in Hr. destruct Hr; congruence. }
